@@ -1,4 +1,6 @@
 import EaselModel.Miniapps.Alimanip
+import EaselModel.Miniapps.Afetch
+import EaselModel.Msafile.Guess
 import EaselModel.Miniapps.Alistat
 import EaselModel.Alphabet.Model
 /-! # C13 — `esl-alistat` on Stockholm / Pfam files read in digital mode, with the optional output files
@@ -255,6 +257,50 @@ def alistatInfo (V : AbcViews) (o : AlistatOpts) (infmt alifile : String) (src :
       let fn_ := file o.iinfo (fun p => iinfoText V.a alifile p.1 (p.1.iamrf.getD [])) (fun fn => "# Insert data saved to file " ++ fn ++ ".\n")
       let fc := file o.cinfo (fun p => cinfoText V.a o.noAmbig alifile p.1 p.2) (fun fn => "# Per-column counts data saved to file " ++ fn ++ ".\n")
       some (out ++ fl.2 ++ fi.2 ++ fr.2 ++ fn_.2 ++ fc.2, fl.1 ++ fi.1 ++ fr.1 ++ fn_.1 ++ fc.1)
+
+/-! ## `easel alistat [-1]` on a Stockholm / Pfam file (`miniapps/cmd_alistat.c`): the format is GUESSED (C03 `guessFormat`), every
+    alignment is summarised; with `-1` the record size of an alignment is printed one loop iteration LATE (it is the distance to
+    the next alignment's offset, or to the end of the file), divided in binary32 by the residue count of the alignment it belongs to -/
+
+def spanBytes (span : List Bytes) : Nat := (span.map fun l => l.length + 1).sum
+
+def easelAlistatSto (V : AbcViews) (oneLine : Bool) (fname : String) (src : Bytes) : Option String :=
+  let ls := EaselModel.Msafile.splitLines src
+  match guessFormat (some (str fname)) ls with
+  | .ok (fmt, _) =>
+    if fmt != .stockholm && fmt != .pfam then none else
+    let fmtName := if fmt == .pfam then "Pfam" else "Stockholm"
+    match readAllSpans (stockholmRead (stockholmCfg (some V.f))) (ls.length + 2) ls [] with
+    | none => none
+    | some recs =>
+      if recs.isEmpty || recs.any (fun r => !r.1.digital) || src.getLast? != some 10 || src.contains 13 then none else
+      let offs := recs.foldl (fun (st : Nat × List Nat) r => (st.1 + spanBytes r.2, st.2 ++ [st.1])) (0, [])
+      let lines := recs.mapIdx fun k r =>
+        let m := r.1
+        let crow := (m.ax.map fun x => ((x.drop 1).dropLast)).map fun row => row.map fun c => V.c.syms.getD c.toNat '-'
+        let st := aliStats V.c crow
+        let nm := match m.name with | some n => bytesStr n | none => "(null)"
+        if oneLine then
+          let off := offs.2.getD k 0
+          let recsize := if k + 1 < recs.length then offs.2.getD (k + 1) 0 - off else src.length - off
+          let ratio := fmtFloatSigned (Float32.ofNat recsize / Float32.ofNat st.nres).toFloat 2
+          padRight 6 (toString (k + 1)) ++ " " ++ padRight 20 nm ++ " " ++ padLeft 10 fmtName ++ " " ++ padLeft 10 (toString st.nseq) ++ " " ++
+            padLeft 10 (toString m.alen) ++ " " ++ padLeft 12 (toString st.nres) ++ " " ++ padLeft 6 (toString st.small) ++ " " ++
+            padLeft 6 (toString st.large) ++ " " ++ padLeft 8 (avgLen st.nres st.nseq) ++ " " ++ padLeft 3 (pct0 (avgId V.c crow 1000)) ++ " " ++
+            padLeft 12 (toString recsize) ++ " " ++ padLeft 10 ratio ++ "\n"
+        else
+          "Alignment name:      " ++ nm ++ "\n" ++
+          "Format:              " ++ fmtName ++ "\n" ++
+          "Alphabet:            " ++ V.c.typeName ++ "\n" ++
+          "Number of sequences: " ++ toString st.nseq ++ "\n" ++
+          "Alignment length:    " ++ toString m.alen ++ "\n" ++
+          "Total # residues:    " ++ toString st.nres ++ "\n" ++
+          "Smallest:            " ++ toString st.small ++ "\n" ++
+          "Largest:             " ++ toString st.large ++ "\n" ++
+          "Average length:      " ++ avgLen st.nres st.nseq ++ "\n" ++
+          "Average identity:    " ++ pct0 (avgId V.c crow 1000) ++ "%\n//\n"
+      some ((if oneLine then easelOneLineHeader else "") ++ String.join lines)
+  | _ => none
 
 /-! ## lemmas (shape: every counter vector keeps its `K+1` cells, every table has one line per column / RF position) -/
 
